@@ -20,7 +20,7 @@ sys.path.insert(0, os.path.join(os.path.dirname(os.path.abspath(__file__)), ".."
 import vlib  # noqa: E402
 
 PID = "C06"
-BYTE_ALPHABET = [0, 1, 2, 0x61, 0x80]
+BYTE_ALPHABET = [0, 1, 2, 0x61, 0x80, 0xFF]
 BROKER_TYPES = [2, 3, 4, 5, 6, 7, 9, 11, 13]
 
 
